@@ -654,7 +654,8 @@ def crafted(sh, d, case):
     st = (FSM.FileStorage(os.path.join(d, 'Data.fs'), blob_dir=blob_dir) if kind == 'file'
           else ZODB.blob.BlobStorage(blob_dir, FSM.FileStorage(os.path.join(d, 'Data.fs'))) if kind == 'blobwrap-file'
           else ZODB.blob.BlobStorage(blob_dir, ZODB.MappingStorage.MappingStorage()))
-    if case['crafted'] in ('pack-after-multiple-undo-leaving-the-blob-uncreated', 'pack-after-garbage-blob-written-and-attached-again'):
+    if case['crafted'] in ('pack-after-multiple-undo-leaving-the-blob-uncreated', 'pack-after-garbage-blob-written-and-attached-again',
+                           'pack-after-multiple-undo-whose-last-record-a-later-undo-points-to'):
         # two regression scenarios for the packer's choice of blob files to remove (FileStorage with a blob directory):
         #  - a multiple undo re-creates a blob and un-creates it again within one transaction: the file copied for the transient
         #    revision belongs to a record the pack removes, so the pack removes it too;
@@ -680,7 +681,27 @@ def crafted(sh, d, case):
         tm.begin()
         c.root()['b'] = b = Blob(b'one')
         tm.commit()
-        if case['crafted'].startswith('pack-after-multiple'):
+        if case['crafted'] == 'pack-after-multiple-undo-whose-last-record-a-later-undo-points-to':
+            #  - a multiple undo writes two records of the blob in one transaction (one file); a later transaction supersedes
+            #    them before the pack time and its undo, after the pack time, points back to the second: the pack drops the
+            #    first record and must keep the file the second one shares with it
+            def rewrite(data):
+                tm.begin()
+                with c.root()['b'].open('w') as f:
+                    f.write(data)
+                tm.commit()
+            del b
+            rewrite(b'two')
+            db.undo(db.undoInfo(0, 1)[0]['id'], tm.get())
+            tm.commit()                                          # back to 'one'
+            db.undoMultiple([x['id'] for x in db.undoInfo(0, 2)], tm.get())
+            tm.commit()                                          # 'two' and 'one' again, two records in one transaction
+            rewrite(b'three')
+            T = st.lastTransaction()
+            db.undo(db.undoInfo(0, 1)[0]['id'], tm.get())        # after the pack time: points back to the second of the two records
+            tm.commit()
+            want = b'one'
+        elif case['crafted'].startswith('pack-after-multiple'):
             del b
             ids = [x['id'] for x in db.undoInfo(0, 1)]
             db.undo(ids[0], tm.get())
@@ -839,8 +860,9 @@ def run_shard(params):
     elif params.get('shard', 0) < 4:
         ccase = {'crafted': 'undo-of-overwritten-blob-change', 'kind': ('file', 'blobwrap-file')[params.get('shard', 0) - 2]}
         guarded(sh, 'c13', ccase, lambda: crafted(sh, sh.fresh_dir('c13'), ccase))
-    elif params.get('shard', 0) < 6:
-        ccase = {'crafted': ('pack-after-multiple-undo-leaving-the-blob-uncreated', 'pack-after-garbage-blob-written-and-attached-again')[params.get('shard', 0) - 4],
+    elif params.get('shard', 0) < 7:
+        ccase = {'crafted': ('pack-after-multiple-undo-leaving-the-blob-uncreated', 'pack-after-garbage-blob-written-and-attached-again',
+                             'pack-after-multiple-undo-whose-last-record-a-later-undo-points-to')[params.get('shard', 0) - 4],
                  'kind': 'file'}
         guarded(sh, 'c13', ccase, lambda: crafted(sh, sh.fresh_dir('c13'), ccase))
     for i in case_indices(params):
